@@ -394,8 +394,9 @@ def finish(ctx):
     ev = {"property_id": ctx.prop, "tier": ctx.tier, "seed": ctx.seed, "level": "proof",
           "coverage": cov, "assumptions": ctx.assumptions,
           "wall_s": round(time.time() - ctx.t0, 2), "violations": len(violations)}
-    os.makedirs(os.path.join(ROOT, "evidence"), exist_ok=True)
-    json.dump(ev, open(os.path.join(ROOT, "evidence", f"{ctx.prop}.json"), "w"), indent=1, default=str)
+    evdir = os.environ.get("VERIF_EVIDENCE_DIR") or os.path.join(ROOT, "evidence")   # set when trying the checks on mutants
+    os.makedirs(evdir, exist_ok=True)
+    json.dump(ev, open(os.path.join(evdir, f"{ctx.prop}.json"), "w"), indent=1, default=str)
     for rp, has_input, what in violations:
         tail = "" if has_input else " no-failing-input-found"
         print(f"VIOLATION property={ctx.prop} replay={rp}{tail}")
